@@ -43,8 +43,13 @@ func runC08(c c08Case) Verdict {
 	if !reflect.DeepEqual(t1, t2) {
 		return failf("the parsed dialogues of two layouts of one program differ: %s%s", firstTreeDifference(t1, t2), ctx())
 	}
-	// the distribution of nodes over readers is layout too: everything in one reader
-	if len(canon) > 1 {
+	// the distribution of nodes over readers is layout too: everything in one reader (file hashtags can only stand at the
+	// start of a file: they stay with the first one)
+	laterFileTags := false
+	for i := 1; i < len(c.Script.FileTags); i++ {
+		laterFileTags = laterFileTags || len(c.Script.FileTags[i]) > 0
+	}
+	if len(canon) > 1 && !laterFileTags {
 		t3, err3 := ysgo.VerifFromReaders(strings.NewReader(strings.Join(canon, "")))
 		if err3 != nil || !reflect.DeepEqual(t1, t3) {
 			return failf("the same nodes in a single reader give another dialogue (err=%v)%s", err3, ctx())
